@@ -75,7 +75,7 @@ func c20ABI(c *core.Ctx) {
 			"MainnetExitRoot": "mainnetExitRoot", "RollupExitRoot": "rollupExitRoot", "DestinationNetwork": "destinationNetwork", "Metadata": "metadata"}},
 		{"decodePreEtrogCalldata", bindV1, "index", map[string]string{
 			"ProofLocalExitRoot": "smtProof",
-			"MainnetExitRoot": "mainnetExitRoot", "RollupExitRoot": "rollupExitRoot", "DestinationNetwork": "destinationNetwork", "Metadata": "metadata"}},
+			"MainnetExitRoot":    "mainnetExitRoot", "RollupExitRoot": "rollupExitRoot", "DestinationNetwork": "destinationNetwork", "Metadata": "metadata"}},
 	}
 	sx := core.NewSymx()
 	for _, g := range gens {
@@ -658,8 +658,8 @@ func c20Error(c *core.Ctx) {
 
 func init() {
 	register(&Property{
-		ID:    "C20",
-		Level: "other",
+		ID:          "C20",
+		Level:       "other",
 		Explanation: "Decides the structural necessary conditions of 'claim details come only from the matching, non-reverted bridge call': C20-abi — the data[i] position used for every claim field and for the compared global index equals the position of the named input in claimAsset and claimMessage of the bridge ABI read from the binding package (the oracle is the contract interface, not a frozen number), the four method selectors equal keccak(signature)[:4] computed from the same ABI, and each generation's decoder receives the inputs unpacked with its own ABI; C20-match — a decoder returns found=true only on the edge where the decoded index equals the event's (big.Int Cmp == 0), writes nothing into the claim before that, and IsMessage is assigned only when found, from the selector comparison of the same generation; C20-revert — in findCall a popped frame is offered to the callback, returned, or expanded into children only past its Err == nil test (inductively: every visited frame and its ancestors are non-reverted), only frames addressed to the bridge reach the callback, an exhausted search returns ErrNotFound, and setClaimCalldata refuses a reverted root and propagates the search error; C20-error — the handlers record the claim only after setClaimCalldata returned nil. ABI decoding itself (go-ethereum) is trusted. Added after round 7: the trace is decoded into a frame of this call (C20-revert), proof siblings are stored as full 32-byte hex (C20-match), a failed appender is retried, never skipped (C20-error).",
 		Rules: []Rule{
 			{ID: "C20-abi", Floor: 18, Run: c20ABI, Text: "[FIELDMAP] vs ABI: data positions, selectors, decoder/ABI pairing"},
